@@ -134,6 +134,33 @@ def run_config(chk, config):
                 seen[nm] = seen.get(nm, 0) + 1
                 if not (isinstance(f0, VInt) and reads and f0.lin == reads[-1][3].lin):
                     bad.append("%s does not carry the value just read" % nm)
+    # an offset-size fault is reported as such: once the offset size has been read, no other rejection may happen
+    # before the offset has been checked against the octets that remain
+    okcount = {}
+    for s, v in rets:
+        vi, p = result_parts(v)
+        reads = [e for e in s.events() if e[0] == "read"]
+        if vi == 0 and reads and tables.variant_name(eng, p) == "Data":
+            F = next(iter(reads[0][3].lin.t))
+            if s.bitfacts.get((F, 14)):
+                key = (s.bitfacts.get((F, 9)), s.bitfacts.get((F, 12)))
+                okcount[key] = len(reads)
+    for s, v in rets:
+        reads = [e for e in s.events() if e[0] == "read"]
+        if not reads:
+            continue
+        F = next(iter(reads[0][3].lin.t))
+        if not s.bitfacts.get((F, 14)) or s.bitfacts.get((F, 8)):
+            continue
+        key = (s.bitfacts.get((F, 9)), s.bitfacts.get((F, 12)))
+        for e in err_items(eng, s, v):
+            nm = tables.variant_name(eng, e)
+            skipped = any(x[0] == "skip" for x in s.events())
+            if okcount.get(key) == len(reads) and not skipped and nm != "InvalidOffset":
+                rd = s.cells.get(("obj", "reader"))
+                off = reads[-1][3].lin
+                if not (isinstance(rd, VReader) and eng.ent(s, c_le(off, rd.L))):
+                    bad.append("after reading the offset size, %s can be reported while the offset may exceed the octets that remain" % nm)
     chk.oblig(not bad and seen.get("InvalidVersion", 0) >= 1 and seen.get("InvalidOffset", 0) >= 1, "offending | message header",
               "a header error does not carry the offending value: %s (seen %s)" % (sorted(set(bad))[:2], seen),
               {"rule": "InvalidVersion(version nibble), InvalidOffset(offset size)", "problems": sorted(set(bad)), "seen": seen},
